@@ -675,3 +675,198 @@ Qed.
 Lemma run_batches_crun s bs :
   run_batches s bs = fold_left (fun t b => crun t (batch_labels t b)) bs s.
 Proof. reflexivity. Qed.
+
+(** * COUNT *)
+
+Lemma bool_eq_iff (a b : bool) : (a = true <-> b = true) -> a = b.
+Proof. destruct a, b; intros [H1 H2]; try reflexivity; [symmetry; auto | auto]. Qed.
+
+Lemma rows_of_list_perm ds l :
+  NoDup l ->
+  Permutation (concat (map srows (filter (fun d => memb (sid d) l) ds))) (concat (map (rows_of ds) l)).
+Proof.
+  induction l as [|i r IH]; intros Hn.
+  - rewrite filter_none by reflexivity. constructor.
+  - apply NoDup_cons_iff in Hn as [Hi Hn]. cbn [map concat].
+    rewrite (perm_concat_split srows (fun d => sid d =? i)). rewrite !filter_filter.
+    apply Permutation_app.
+    + unfold rows_of. erewrite filter_ext_in'; [reflexivity|]. intros d _. cbn beta.
+      rewrite memb_cons. destruct (sid d =? i); [reflexivity | apply andb_false_r].
+    + rewrite <- (IH Hn). erewrite filter_ext_in'; [reflexivity|]. intros d _. cbn beta.
+      rewrite memb_cons. destruct (N.eqb_spec (sid d) i) as [E|E]; cbn [orb negb]; [|apply andb_true_r].
+      rewrite andb_false_r. symmetry. apply memb_false. rewrite E. exact Hi.
+Qed.
+
+Definition undrained (s : shard) (b : batch) : list N :=
+  filter (fun i => negb (memb i (drained (index s) b))) (b_inputs b).
+
+(** every live row is listed in the entry of its own segment (no retired leftovers) *)
+Definition Exact (s : shard) : Prop :=
+  forall i e, In i (live s) -> In e (rows_of (dirs s) i) -> exists us, In (i, us) (index s) /\ In (euid e) us.
+
+Section OneBatchCount.
+  Variables (k : N) (s : shard) (b : batch).
+  Hypothesis W : WF s.
+  Hypothesis P : BatchPre k s b.
+
+  Let dr := drained (index s) b.
+  Let s' := run_batch s b.
+
+  Lemma obc_memb_live i : i <> b_out b -> ~ In i dr -> memb i (live s') = memb i (live s).
+  Proof.
+    intros Ho Hd. apply bool_eq_iff. rewrite !memb_true. unfold s'. rewrite in_live_after. fold dr. tauto.
+  Qed.
+
+  Lemma obc_seg_rows :
+    seg_rows s' =
+    concat (map srows (filter (fun d => negb (memb (sid d) dr)) (scanned_dirs s))) ++ batch_rows (dirs s) b.
+  Proof.
+    unfold seg_rows at 1, scanned_dirs at 1. unfold s' at 3. rewrite (ob_dirs k s b W P). fold dr s'.
+    rewrite filter_app, map_app, concat_app. f_equal.
+    - f_equal. f_equal. unfold scanned_dirs. rewrite !filter_filter. apply filter_ext_in'.
+      intros d Hd. cbn beta. destruct (memb (sid d) dr) eqn:Hm; cbn [negb andb]; [symmetry; apply andb_false_r|].
+      rewrite andb_true_r. rewrite obc_memb_live; [reflexivity | apply (bp_fresh _ _ _ P), Hd | apply memb_false, Hm].
+    - cbn [filter sid]. assert (E : memb (b_out b) (live s') = true).
+      { apply memb_true. unfold s'. apply in_live_after. left. reflexivity. }
+      rewrite E. cbn [orb map concat srows]. apply app_nil_r.
+  Qed.
+
+  Lemma obc_perm :
+    Permutation (seg_rows s ++ batch_rows (dirs s) b)
+                (seg_rows s' ++ concat (map (rows_of (dirs s)) dr)).
+  Proof.
+    rewrite obc_seg_rows. unfold seg_rows.
+    rewrite (perm_concat_split srows (fun d => memb (sid d) dr) (scanned_dirs s)).
+    assert (E : filter (fun d => memb (sid d) dr) (scanned_dirs s) = filter (fun d => memb (sid d) dr) (dirs s)).
+    { unfold scanned_dirs. rewrite filter_filter. apply filter_ext_in'. intros d _. cbn beta.
+      destruct (memb (sid d) dr) eqn:Hm; [|apply andb_false_r]. rewrite andb_true_r.
+      apply memb_true in Hm. apply (ob_dr_input s b) in Hm. apply (bp_live _ _ _ P), memb_true in Hm.
+      rewrite Hm. reflexivity. }
+    rewrite E, (rows_of_list_perm (dirs s) dr) by (apply drained_nodup, (w_nd _ W)).
+    rewrite <- !app_assoc. rewrite Permutation_app_comm, <- !app_assoc. reflexivity.
+  Qed.
+
+  Lemma obc_count_eq u :
+    count s' u + len (of_uid u (concat (map (rows_of (dirs s)) dr)))
+    = count s u + len (of_uid u (batch_rows (dirs s) b)).
+  Proof.
+    unfold count. pose proof (len_perm _ _ (of_uid_perm u _ _ obc_perm)) as H.
+    rewrite !of_uid_app, !len_app in H. change (mem_rows s') with (mem_rows s). lia.
+  Qed.
+
+  Lemma obc_inputs_split :
+    NoDup (b_inputs b) -> Permutation (b_inputs b) (dr ++ undrained s b).
+  Proof.
+    intros Hn. apply NoDup_Permutation; [exact Hn | |].
+    - apply nodup_app. split; [apply drained_nodup, (w_nd _ W)|]. split; [apply NoDup_filter, Hn|].
+      intros x Hx Hx2. apply filter_In in Hx2 as [_ Hc]. apply negb_true_iff, memb_false in Hc. auto.
+    - intros x. rewrite in_app_iff. unfold undrained. rewrite filter_In, negb_true_iff, memb_false. fold dr.
+      split; [intros Hx; destruct (in_dec N.eq_dec x dr); auto|].
+      intros [Hx|[Hx _]]; [apply (ob_dr_input s b), Hx | exact Hx].
+  Qed.
+
+  Lemma concat_map_perm {A B} (f : A -> list B) l l' :
+    Permutation l l' -> Permutation (concat (map f l)) (concat (map f l')).
+  Proof.
+    induction 1 as [|x a c H IH|x y a|a c d H1 IH1 H2 IH2]; cbn [map concat].
+    - constructor.
+    - apply Permutation_app_head, IH.
+    - rewrite !app_assoc. apply Permutation_app_tail, Permutation_app_comm.
+    - etransitivity; eassumption.
+  Qed.
+
+  (** a type of the batch: COUNT grows by exactly its rows in the inputs that stay live *)
+  Lemma obc_count_in u :
+    NoDup (b_uids b) -> In u (b_uids b) ->
+    count s' u = count s u + len (of_uid u (concat (map (rows_of (dirs s)) (undrained s b)))).
+  Proof.
+    intros Hn Hu. pose proof (obc_count_eq u) as H.
+    destruct (batch_ok_spec _ _ _ (bp_ok _ _ _ P)) as (_ & _ & _ & Hni & _).
+    pose proof (obc_inputs_split (Hni (w_nd _ W))) as Hsp.
+    pose proof (len_perm _ _ (rows_multiset (dirs s) b u Hn Hu)) as H2.
+    rewrite (len_perm _ _ (of_uid_perm u _ _ (concat_map_perm (rows_of (dirs s)) _ _ Hsp))) in H2.
+    rewrite map_app, concat_app, of_uid_app, len_app in H2. lia.
+  Qed.
+
+  (** another type: COUNT loses the rows of that type held by the drained directories *)
+  Lemma obc_count_notin u :
+    ~ In u (b_uids b) ->
+    count s' u + len (of_uid u (concat (map (rows_of (dirs s)) dr))) = count s u.
+  Proof.
+    intros Hu. pose proof (obc_count_eq u) as H. rewrite (rows_multiset_other _ _ _ Hu) in H.
+    change (len (@nil event)) with 0 in H. lia.
+  Qed.
+
+  Lemma obc_exact_drained u :
+    Exact s -> ~ In u (b_uids b) -> of_uid u (concat (map (rows_of (dirs s)) dr)) = [].
+  Proof.
+    intros X Hu. apply of_uid_none. intros e He E. apply in_concat in He as (z & Hz & He).
+    apply in_map_iff in Hz as (i & <- & Hi). pose proof Hi as Hd.
+    apply in_drained in Hd as (Hin & us & Hix & Hk).
+    destruct (X i e (bp_live _ _ _ P i Hin) He) as (us2 & Hix2 & Hus).
+    rewrite (index_entry_unique _ _ _ _ (w_nd _ W) Hix2 Hix) in Hus.
+    assert (Hkk : In (euid e) (keep_uids b us)) by (apply keep_uids_in; split; [exact Hus | congruence]).
+    rewrite Hk in Hkk. destruct Hkk.
+  Qed.
+
+  Lemma obc_full_drain u :
+    Exact s -> NoDup (b_uids b) -> (forall i, In i (b_inputs b) -> In i dr) -> count s' u = count s u.
+  Proof.
+    intros X Hn Hall. destruct (in_dec N.eq_dec u (b_uids b)) as [Hu|Hu].
+    - rewrite (obc_count_in u Hn Hu). unfold undrained. rewrite filter_none.
+      + cbn [map concat of_uid filter]. change (len (@nil event)) with 0. lia.
+      + intros i Hi. apply negb_false_iff, memb_true, Hall, Hi.
+    - pose proof (obc_count_notin u Hu) as H. rewrite (obc_exact_drained u X Hu) in H.
+      change (len (@nil event)) with 0 in H. lia.
+  Qed.
+
+  Lemma obc_exact : Exact s -> (forall i, In i (b_inputs b) -> In i dr) -> Exact s'.
+  Proof.
+    intros X Hall i e Hi He. unfold s' in Hi. apply in_live_after in Hi as [->|[Hl Hd]].
+    - exists (b_uids b). split; [apply in_index_after; left; auto|].
+      unfold s' in He. rewrite (ob_rows_out k s b W P) in He. apply batch_rows_in in He. tauto.
+    - assert (Ho : i <> b_out b) by (intros E; subst i; apply (ob_out_not_live k s b W P), Hl).
+      unfold s' in He. rewrite (ob_rows_keep k s b W P i Ho Hd) in He.
+      destruct (X i e Hl He) as (us & Hix & Hus). exists us. split; [|exact Hus].
+      apply in_index_after. right. split; [exact Ho|]. exists us. split; [exact Hix|]. right.
+      split; [|reflexivity]. intros Hin. apply Hd, Hall, Hin.
+  Qed.
+End OneBatchCount.
+
+Theorem count_after_batch : forall k s b u,
+  WF s -> BatchPre k s b -> NoDup (b_uids b) ->
+  (In u (b_uids b) ->
+     count (run_batch s b) u
+     = count s u + len (of_uid u (concat (map (rows_of (dirs s)) (undrained s b))))) /\
+  (~ In u (b_uids b) -> Exact s -> count (run_batch s b) u = count s u).
+Proof.
+  intros k s b u W P Hn. split.
+  - intros Hu. eapply obc_count_in; eassumption.
+  - intros Hu X. pose proof (obc_count_notin k s b W P u Hu) as H.
+    rewrite (obc_exact_drained k s b W P u X Hu) in H. change (len (@nil event)) with 0 in H. lia.
+Qed.
+
+Theorem count_preserved_full_drain : forall k s b,
+  WF s -> Exact s -> BatchPre k s b -> NoDup (b_uids b) ->
+  (forall i, In i (b_inputs b) -> In i (drained (index s) b)) ->
+  Exact (run_batch s b) /\ forall u, count (run_batch s b) u = count s u.
+Proof.
+  intros k s b W X P Hn Hall. split.
+  - eapply obc_exact; eassumption.
+  - intros u. eapply obc_full_drain; eassumption.
+Qed.
+
+(** a batch with a single event type listed alone in every input drains every input *)
+Lemma single_type_full_drain s b u :
+  b_uids b = [u] ->
+  (forall i us, In i (b_inputs b) -> In (i, us) (index s) -> forall v, In v us -> v = u) ->
+  (forall i, In i (b_inputs b) -> In i (index_labels (index s))) ->
+  forall i, In i (b_inputs b) -> In i (drained (index s) b).
+Proof.
+  intros Hu Hone Hix i Hi. apply in_drained. split; [exact Hi|].
+  apply Hix in Hi as Hl. unfold index_labels in Hl. apply in_map_iff in Hl as ([j us] & E & Hin).
+  cbn [fst] in E. subst j. exists us. split; [exact Hin|].
+  destruct (keep_uids b us) as [|v r] eqn:Hk; [reflexivity|]. exfalso.
+  assert (Hv : In v (keep_uids b us)) by (rewrite Hk; left; reflexivity).
+  apply keep_uids_in in Hv as [Hv Hn]. apply Hn. rewrite Hu. left. symmetry. eapply Hone; eauto.
+Qed.
